@@ -148,3 +148,30 @@ package openapi3
 //@   ensures [verdict] (result == nil) <==> validArray(schema, value)
 //@   ensures [nonempty-multi] typeof(result) == type MultiError ==> len(result.(MultiError)) > 0
 //@   tag C01 C10 C12
+
+// ---- objects: type, minProperties/maxProperties, properties, additionalProperties, required ----
+//@ spec propsSizeOK(s *Schema, n int) bool := s.MinProps <= n && (s.MaxProps != nil ==> n <= *s.MaxProps)
+//@ spec addlAllowed(s *Schema) bool := s.AdditionalProperties.Has == nil || *s.AdditionalProperties.Has
+//@ spec propOK(s *Schema, k string, v any) bool :=
+//@     s.Properties[k] != nil ? valid(s.Properties[k].Value, v)
+//@   : (addlAllowed(s) && (s.AdditionalProperties.Schema != nil ==> valid(s.AdditionalProperties.Schema.Value, v)))
+//@ spec validObject(s *Schema, o map[string]any) bool :=
+//@     permits(s.Type, "object")
+//@  && propsSizeOK(s, len(o))
+//@  && (forall k string :: has(o, k) ==> propOK(s, k, o[k]))
+//@  && (forall j int :: 0 <= j && j < len(s.Required) ==> has(o, s.Required[j]))
+
+//@ func (*Schema).visitJSONObject
+//@   requires schema != nil && settings != nil
+//@   assuming !settings.asreq && !settings.asrep
+//@   assuming forall k string :: schema.Properties[k] != nil ==> schema.Properties[k].Value != nil
+//@   assuming schema.AdditionalProperties.Schema != nil ==> schema.AdditionalProperties.Schema.Value != nil
+//@   modifies nothing
+//@   loop 2 invariant seenset() == keys(keys) && fresh(keys)
+//@   loop 3 invariant !settings.multiError ==> len(me) == 0
+//@   loop 3 invariant (len(me) == 0) <==> (propsSizeOK(schema, len(value)) && (forall k string :: keysPrefix(keys, #i)[k] ==> propOK(schema, k, value[k])))
+//@   loop 4 invariant !settings.multiError ==> len(me) == 0
+//@   loop 4 invariant (len(me) == 0) <==> (propsSizeOK(schema, len(value)) && (forall k string :: has(value, k) ==> propOK(schema, k, value[k])) && (forall j int :: 0 <= j && j < #i ==> has(value, schema.Required[j])))
+//@   ensures [verdict] (result == nil) <==> validObject(schema, value)
+//@   ensures [nonempty-multi] typeof(result) == type MultiError ==> len(result.(MultiError)) > 0
+//@   tag C01 C10 C12
